@@ -2175,7 +2175,7 @@ double BW_MidiSequencer::seek(double seconds, const double granularity)
      */
     m_loop.caughtStart   = false;
 
-    m_loop.temporaryBroken = (seconds >= m_loopEndTime);
+    m_loop.temporaryBroken = (m_loopEndTime >= 0.0) && (seconds >= m_loopEndTime);
 
     while((m_currentPosition.absTimePosition < seconds) &&
           (m_currentPosition.absTimePosition < m_fullSongTimeLength))
